@@ -16,12 +16,12 @@ theorem silence_snoc (pre : List (Frame R)) (f : Frame R) :
   unfold silence
   rw [List.reverse_append]
   by_cases h : isWait f = true
-  · simp [List.takeWhile_cons, h]; omega
-  · simp [List.takeWhile_cons, h]
+  · simp [h]; omega
+  · simp [h]
 
 theorem elapsed_snoc (pre : List (Frame R)) (f : Frame R) :
     elapsed (pre ++ [f]) = elapsed pre + waitMs f := by
-  simp [elapsed, List.sum_append_nat]
+  simp [elapsed]
 
 theorem dropWhile_of_count_zero (pre : List (Frame R)) (h : successCount validate pre = 0) :
     pre.dropWhile (fun f => !isSuccess validate f) = [] := by
@@ -39,11 +39,11 @@ theorem dropWhile_of_count_pos (pre l : List (Frame R)) (h : 1 ≤ successCount 
   | nil => simp [successCount] at h
   | cons a t ih =>
     by_cases ha : isSuccess validate a = true
-    · simp [List.dropWhile_cons, ha]
+    · simp [ha]
     · have ht : 1 ≤ successCount validate t := by
         simp only [successCount, List.countP_cons, ha] at h
         simpa [successCount] using h
-      simp [List.dropWhile_cons, ha, ih ht]
+      simp [ha, ih ht]
 
 theorem others_append (a b : List (Frame R)) : others (a ++ b) = others a ++ others b := by
   simp [others, List.filterMap_append]
@@ -67,8 +67,8 @@ theorem bufferedOf_snoc (pre : List (Frame R)) (f : Frame R) :
     unfold bufferedOf
     rw [List.dropWhile_append_of_pos]
     · by_cases hf : isSuccess validate f = true
-      · simp [List.dropWhile_cons, hf, others_success validate f hf]
-      · simp [List.dropWhile_cons, hf, others]
+      · simp [hf, others_success validate f hf]
+      · simp [hf, others]
     · intro a ha
       have := (List.countP_eq_zero.mp h0) a ha
       simpa using this
@@ -125,7 +125,7 @@ theorem run_eq_scan (timeout expected : Nat) (rest pre : List (Frame R)) :
           simp [summary, h1, this, ← ih]
         · have : { summary validate pre with idle := 0 } = summary validate (pre ++ [Frame.other p]) := by
             have h0 : successCount validate pre = 0 := by omega
-            simp [summary, successCount_snoc, silence_snoc, bufferedOf_snoc, isSuccess, isWait, others, h0,
+            simp [summary, successCount_snoc, silence_snoc, isSuccess, isWait, h0,
               bufferedOf_of_count_zero]
           simp only [summary] at this
           simp [summary, h1, this, ← ih]
@@ -137,6 +137,78 @@ theorem run_eq_scan (timeout expected : Nat) (rest pre : List (Frame R)) :
           exact bufferedOf_of_count_zero validate pre
         simp only [summary] at this
         simp [summary, fatal, this, ← ih]
+
+/-! ### Pings and pongs only re-arm the timer -/
+
+def notSkip : Frame R → Bool
+  | .skip => false
+  | _ => true
+
+def NoWaits (frames : List (Frame R)) : Prop := ∀ f ∈ frames, isWait f = false
+
+theorem run_done (timeout expected : Nat) (st : St) (h : st.successes = expected) (l : List (Frame R)) :
+    run validate timeout expected st l = .ok (st.buffered, l) := by
+  cases l <;> simp [run, h]
+
+theorem run_idle_irrelevant (timeout expected : Nat) (frames : List (Frame R)) (hw : NoWaits frames)
+    (s : Nat) (b : List Nat) (i : Nat) :
+    run validate timeout expected ⟨s, b, i⟩ frames = run validate timeout expected ⟨s, b, 0⟩ frames := by
+  cases frames with
+  | nil => simp [run]
+  | cons f rest =>
+    unfold run
+    by_cases hd : s = expected
+    · simp [hd]
+    · simp only [beq_iff_eq, hd, if_false]
+      cases f with
+      | wait d => have := hw (.wait d) (by simp); simp [isWait] at this
+      | _ => rfl
+
+theorem run_filter_skip (timeout expected : Nat) (frames : List (Frame R)) (hw : NoWaits frames)
+    (st : St) :
+    run validate timeout expected st (frames.filter notSkip)
+      = (run validate timeout expected st frames).map (fun p => (p.1, p.2.filter notSkip)) := by
+  induction frames generalizing st with
+  | nil => simp [run]; split <;> rfl
+  | cons f rest ih =>
+    have hw' : NoWaits rest := fun x hx => hw x (List.mem_cons_of_mem _ hx)
+    by_cases hd : st.successes = expected
+    · rw [run_done validate timeout expected st hd, run_done validate timeout expected st hd]; rfl
+    · cases f with
+      | skip =>
+        have hfil : (Frame.skip :: rest).filter notSkip = rest.filter (notSkip (R := R)) := rfl
+        rw [hfil]
+        conv => rhs; unfold run
+        simp only [beq_iff_eq, hd, if_false]
+        rw [← ih hw']
+        obtain ⟨s, b, i⟩ := st
+        have hwf : NoWaits (rest.filter (notSkip (R := R))) :=
+          fun x hx => hw' x (List.mem_filter.mp hx).1
+        rw [run_idle_irrelevant validate timeout expected _ hwf s b i]
+      | wait d => have := hw (.wait d) (by simp); simp [isWait] at this
+      | resp r =>
+        have hfil : (Frame.resp r :: rest).filter notSkip = Frame.resp r :: rest.filter notSkip := rfl
+        rw [hfil]
+        unfold run
+        simp only [beq_iff_eq, hd, if_false]
+        cases validate r with
+        | none => exact ih hw' _
+        | some e => rfl
+      | other p =>
+        have hfil : (Frame.other p :: rest).filter notSkip
+            = Frame.other p :: rest.filter (notSkip (R := R)) := rfl
+        rw [hfil]
+        unfold run
+        simp only [beq_iff_eq, hd, if_false]
+        split <;> exact ih hw' _
+      | close =>
+        have hfil : (Frame.close :: rest).filter notSkip
+            = Frame.close :: rest.filter (notSkip (R := R)) := rfl
+        rw [hfil]; unfold run; simp [hd]; rfl
+      | transportErr =>
+        have hfil : (Frame.transportErr :: rest).filter notSkip
+            = Frame.transportErr :: rest.filter (notSkip (R := R)) := rfl
+        rw [hfil]; unfold run; simp [hd]; rfl
 
 end Generic
 
@@ -454,8 +526,8 @@ theorem sum_takeWhile_le (p : Frame R → Bool) (l : List (Frame R)) :
   | nil => simp
   | cons a t ih =>
     by_cases h : p a = true
-    · simp [List.takeWhile_cons, h]; omega
-    · simp [List.takeWhile_cons, h]
+    · simp [h]; omega
+    · simp [h]
 
 theorem silence_le_elapsed (pre : List (Frame R)) : silence pre ≤ elapsed pre := by
   unfold silence elapsed
@@ -474,7 +546,7 @@ theorem earlier_silence_elapsed (validate : R → Option RespErr) (timeout : Nat
       split at h
       · rw [if_pos (by omega)]; exact h
       · cases h
-    | _ => simpa [fatal] using h
+    | _ => exact h
   · intro p f e hb ha
     cases f with
     | wait d =>
@@ -664,8 +736,8 @@ theorem chanIdOf_snoc (pre : List (Frame BfxEvent)) (f : Frame BfxEvent) (k : Ke
     | some y => simp
     | none =>
       by_cases hk : k' = k
-      · simp [List.find?_cons, hk]
-      · simp [List.find?_cons, hk]
+      · simp [hk]
+      · simp [hk]
 
 theorem chanIdOf_nil (k : Key) : chanIdOf [] k = none := by simp [chanIdOf, confirmations]
 
@@ -720,7 +792,7 @@ theorem countP_or_disjoint {α : Type} (p q : α → Bool) (l : List α)
 theorem IMap.get_cons_ne (e : Key × Nat) (t : IMap) (k : Key) (h : e.1 ≠ k) :
     IMap.get (e :: t) k = IMap.get t k := by
   have hb : (e.1 == k) = false := by simp [h]
-  simp [IMap.get, List.find?_cons, hb]
+  simp [IMap.get, hb]
 
 theorem countP_key {m : IMap} (h : KeysNodup m) (k : Key) :
     m.countP (fun e => e.1 == k) = if (m.get k).isSome then 1 else 0 := by
@@ -737,7 +809,7 @@ theorem countP_key {m : IMap} (h : KeysNodup m) (k : Key) :
         have : x.1 = k := by simpa using hxk
         rw [hk, ← this]
         exact List.mem_map.mpr ⟨x, hx, rfl⟩
-      simp [List.countP_cons, hk, h0, IMap.get]
+      simp [hk, h0, IMap.get]
     · have := ih ht
       have hb : (e.1 == k) = false := by simp [hk]
       rw [IMap.get_cons_ne e t k hk, List.countP_cons, hb, this]
@@ -1015,7 +1087,7 @@ theorem filterMap_sublist_of_le {α β : Type} (g g' : α → Option β) (l : Li
       | some y => exact List.Sublist.cons _ ih
     | some x =>
       rw [h a x hg]
-      exact List.Sublist.cons₂ _ ih
+      exact List.Sublist.cons_cons _ ih
 
 theorem filterMap_nodup_inj {α β : Type} (g : α → Option β) (l : List α) (hn : (l.filterMap g).Nodup)
     (a b : α) (ha : a ∈ l) (hb : b ∈ l) (x : β) (hga : g a = some x) (hgb : g b = some x)
